@@ -605,6 +605,9 @@ func (env *evalEnv) call(v *ast.CallExpr) SV {
 			return SV{t: tb.Unbox(e.typeKey(t), e.sortOf(t), a.t), typ: t}
 		case "box":
 			a := env.eval(v.Args[0])
+			if a.t.sort == "Iface" {
+				return a // already an interface value
+			}
 			return SV{t: tb.Box(e.typeKey(a.typ), e.sortOf(a.typ), a.t), typ: types.NewInterfaceType(nil, nil)}
 		case "fresh":
 			a := env.eval(v.Args[0])
